@@ -218,7 +218,8 @@ def shrink_steps(case):
 class C16(runner.Check):
     prop = 'C16'
     level = 'proof'
-    theorems = ('TM.C16_states_once_nested', 'TM.C16_edges_exact', 'TM.C16_elements_cover',
+    theorems = ('TM.C16_states_once_nested', 'TM.C16_states_once_flat', 'TM.C16_edges_exact',
+                'TM.C16_edges_present', 'TM.C16_elements_cover',
                 'TM.C16_final_initial_marked', 'TM.C16_final_marked_flat_partial',
                 'TM.C16_final_marked_flat_counterexample',
                 'TM.C16_activity', 'TM.C16_activity_previous_partial', 'TM.C16_activity_previous_counterexample',
